@@ -122,9 +122,9 @@ class _ExpressionParser:
 
     Grammar:
         expr       -> term (('+' | '-') term)*
-        term       -> power (('*' | '/' | '//' | '%') power)*
-        power      -> unary ('**' power)?
-        unary      -> '-' unary | primary
+        term       -> unary (('*' | '/' | '//' | '%') unary)*
+        unary      -> '-' unary | power
+        power      -> primary ('**' unary)?
         primary    -> NUMBER | IDENT | IDENT '(' args ')' | '(' expr ')'
         args       -> expr (',' expr)*
     """
@@ -179,7 +179,7 @@ class _ExpressionParser:
 
     def _parse_term(self) -> sympy.Expr:
         """Parse a term (handles *, /, //, %)."""
-        left = self._parse_power()
+        left = self._parse_unary()
 
         while (
             self.current_token is not None
@@ -188,7 +188,7 @@ class _ExpressionParser:
         ):
             op = self.current_token[1]
             self._advance()
-            right = self._parse_power()
+            right = self._parse_unary()
             if op == "*":
                 left = left * right
             elif op == "/":
@@ -202,7 +202,7 @@ class _ExpressionParser:
 
     def _parse_power(self) -> sympy.Expr:
         """Parse a power expression (handles **)."""
-        base = self._parse_unary()
+        base = self._parse_primary()
 
         if (
             self.current_token is not None
@@ -210,8 +210,8 @@ class _ExpressionParser:
             and self.current_token[1] == "**"
         ):
             self._advance()
-            # Right-associative
-            exponent = self._parse_power()
+            # Right-associative; the exponent may carry its own sign (x ** -2)
+            exponent = self._parse_unary()
             return base**exponent
 
         return base
@@ -226,7 +226,8 @@ class _ExpressionParser:
             self._advance()
             return -self._parse_unary()
 
-        return self._parse_primary()
+        # ** binds tighter than a unary minus on its left: -x**2 is -(x**2)
+        return self._parse_power()
 
     def _parse_primary(self) -> sympy.Expr:
         """Parse a primary expression (number, identifier, function call, or parenthesized expression)."""
